@@ -89,11 +89,11 @@ fn entity_text(r: &mut Rng) -> String {
 /// one boolean condition as Cedar text, using surface syntax the AST printer never produces
 fn gen_cond_text(r: &mut Rng, g: &mut ExprGen, out: &mut Out) -> String {
     let d = r.below(3) as u32;
-    let k = r.below(20);
-    let tag = match k { 0..=8 => "ast_printed", 9 => "noteq", 10 => "greater", 11 => "greatereq", 12 | 13 => "has_chain", 14 | 15 => "is_in", 16 => "and_or_chain", 17 => "has_string", 18 => "neg_method", _ => "record_index" };
+    let k = if r.chance(2) { 20 } else { r.below(20) };
+    let tag = match k { 20 => "wrong_arity", 0..=8 => "ast_printed", 9 => "noteq", 10 => "greater", 11 => "greatereq", 12 | 13 => "has_chain", 14 | 15 => "is_in", 16 => "and_or_chain", 17 => "has_string", 18 => "neg_method", _ => "record_index" };
     out.count(&format!("cond_{tag}"));
     match k {
-        0..=8 => g.gen(r, Ty::Bool, 1 + r.below(4) as u32).to_string(),
+        0..=8 => { let dd = 1 + r.below(4) as u32; g.gen(r, Ty::Bool, dd).to_string() }
         9 => {
             let t = *r.pick(gen::ALL_TYS);
             format!("({}) != ({})", g.gen(r, t, d), g.gen(r, t, d))
@@ -128,6 +128,7 @@ fn gen_cond_text(r: &mut Rng, g: &mut ExprGen, out: &mut Out) -> String {
                 _ => format!("!!({a}) && !({b})"),
             }
         }
+        20 => (*r.pick(&["ip(\"1.1.1.1\").isIpv4(1, 2)", "decimal(\"1.0\", 2) == decimal(\"1.0\")", "context.ip.isInRange()", "duration(\"1h\").toHours(1) > 0"])).to_string(),
         17 => format!("context has \"has space\" || {} has \"\"", entity_text(r)),
         18 => format!("-({}) < - 3 && {}.isEmpty() == false", g.gen(r, Ty::Long, d), g.gen(r, Ty::SetLong, d)),
         _ => format!("{{\"a b\": {}, c: 2}}[\"a b\"] == context[\"has space\"]", g.gen(r, Ty::Str, 0)),
@@ -552,7 +553,8 @@ fn check_set(worlds: &[World], built: &[Built], out: &mut Out) {
             Some(Ok(ps2)) => {
                 out.count("a_set_json_roundtrips");
                 if let Some(d) = diff_pset(orig, ps2.as_ref()) { out.propfail("(a) PolicySet JSON round trip differs", &case, &d); }
-                if ps != ps2 { out.propfail("(a) PolicySet JSON round trip: PartialEq differs", &case, ""); }
+                // `PolicySet: PartialEq` compares insertion-ordered maps; the property speaks of the members
+                if ps != ps2 { out.count("set_partialeq_differs_json(order-sensitive)"); }
                 check_responses_ps(worlds, orig, ps2.as_ref(), &case, "policy-set json", out);
                 // second generation: JSON of the JSON-built set
                 if let Ok(j2) = ps2.clone().to_json() {
@@ -590,7 +592,7 @@ fn check_set(worlds: &[World], built: &[Built], out: &mut Out) {
                     Some(Ok(ps2)) => {
                         out.count("d_set_proto_roundtrips");
                         if let Some(d) = diff_pset(orig, ps2.as_ref()) { out.propfail(&format!("(d) PolicySet protobuf round trip ({how}) differs"), &case, &d); }
-                        if ps != ps2 { out.propfail(&format!("(d) PolicySet protobuf round trip ({how}): PartialEq differs"), &case, ""); }
+                        if ps != ps2 { out.count("set_partialeq_differs_proto(order-sensitive)"); }
                         check_responses_ps(worlds, orig, ps2.as_ref(), &case, "policy-set protobuf", out);
                         // protobuf -> JSON -> set
                         if how == "decode" {
@@ -659,7 +661,9 @@ fn gen_est_json(r: &mut Rng, d: u32, out: &mut Out, bad_pct: u32) -> J {
     if d == 0 || r.chance(15) {
         return match r.below(8) {
             0 | 1 => { out.count("jk_Value"); json!({"Value": gen_value_json(r, 2)}) }
-            2 | 3 => { out.count("jk_Var"); json!({"Var": *r.pick(&["principal", "action", "resource", "context"])}) }
+            2 => { out.count("jk_Var"); json!({"Var": *r.pick(&["principal", "action", "resource", "context"])}) }
+            3 => if r.chance(85) { out.count("jk_Var"); json!({"Var": *r.pick(&["principal", "action", "resource", "context"])}) }
+                 else { out.count("jk_odd_unit_variant"); J::Object([("Var".to_string(), J::Object([((*r.pick(&["principal", "context", "nosuch"])).to_string(), J::Null)].into_iter().collect()))].into_iter().collect()) },
             4 => { out.count("jk_Value"); json!({"Value": gen::gen_long(r)}) }
             5 => { out.count("jk_Value"); json!({"Value": {"__entity": j_uid(r)}}) }
             6 if r.chance(bad_pct) => { out.count("jk_Slot"); json!({"Slot": *r.pick(&["?principal", "?resource", "principal"])}) }
@@ -691,7 +695,11 @@ fn gen_est_json(r: &mut Rng, d: u32, out: &mut Out, bad_pct: u32) -> J {
             json!({k: {"left": gen_est_json(r, d1, out, bad_pct), "right": gen_est_json(r, d1, out, bad_pct)}})
         }
         10 => { out.count("jk_."); json!({".": {"left": gen_est_json(r, d1, out, bad_pct), "attr": *r.pick(&["n", "r", "has space", "", "if"])}}) }
-        11 => { out.count("jk_has"); json!({"has": {"left": gen_est_json(r, d1, out, bad_pct), "attr": *r.pick(&["n", "r", "has space", ""])}}) }
+        11 => {
+            out.count("jk_has");
+            if r.chance(85) { json!({"has": {"left": gen_est_json(r, d1, out, bad_pct), "attr": *r.pick(&["n", "r", "has space", ""])}}) }
+            else { out.count("jk_odd_has_extra_member"); json!({"has": {"left": gen_est_json(r, d1, out, bad_pct), "attr": *r.pick(&["n", "r"]), "extra": 1}}) }
+        }
         12 => {
             out.count("jk_has_extended");
             let n = 1 + r.below(4);
@@ -701,7 +709,7 @@ fn gen_est_json(r: &mut Rng, d: u32, out: &mut Out, bad_pct: u32) -> J {
         13 | 14 => {
             out.count("jk_like");
             let n = r.below(5);
-            let pat: Vec<J> = (0..n).map(|_| if r.chance(40) { json!("Wildcard") } else { json!({"Literal": *r.pick(&["a", "ab", "", "*", "\\", "\u{1F600}x", "a*b"])}) }).collect();
+            let pat: Vec<J> = (0..n).map(|_| if r.chance(35) { json!("Wildcard") } else if r.chance(8) { json!({"Wildcard": null}) } else { json!({"Literal": *r.pick(&["a", "ab", "", "*", "\\", "\u{1F600}x", "a*b"])}) }).collect();
             json!({"like": {"left": gen_est_json(r, d1, out, bad_pct), "pattern": pat}})
         }
         15 | 16 => {
@@ -731,6 +739,7 @@ fn gen_est_json(r: &mut Rng, d: u32, out: &mut Out, bad_pct: u32) -> J {
 fn gen_scope_json(r: &mut Rng, slot: &str, allow_is: bool, bad_pct: u32) -> J {
     let ent_or_slot = |r: &mut Rng| -> (String, J) {
         if r.chance(25) { ("slot".to_string(), json!(format!("?{slot}"))) }
+        else if r.chance(5) { let mut u = j_uid(r); u["extra"] = json!(1); ("entity".to_string(), u) }
         else if r.chance(15) { ("entity".to_string(), json!({"__entity": j_uid(r)})) }
         else { ("entity".to_string(), j_uid(r)) }
     };
@@ -744,7 +753,7 @@ fn gen_scope_json(r: &mut Rng, slot: &str, allow_is: bool, bad_pct: u32) -> J {
         };
     }
     match r.below(if allow_is { 6 } else { 4 }) {
-        0 => json!({"op": "All"}),
+        0 => if r.chance(90) { json!({"op": "All"}) } else { json!({"op": "All", "entity": j_uid(r), "x": 1}) },
         1 => json!({"op": "all"}),
         2 => { let (k, v) = ent_or_slot(r); J::Object([("op".to_string(), json!("==")), (k, v)].into_iter().collect()) }
         3 => { let (k, v) = ent_or_slot(r); J::Object([("op".to_string(), json!("in")), (k, v)].into_iter().collect()) }
@@ -775,10 +784,11 @@ fn gen_action_json(r: &mut Rng, bad_pct: u32) -> J {
 fn gen_policy_json(r: &mut Rng, out: &mut Out) -> J {
     let bad = if r.chance(25) { 6 } else { 0 };
     let mut m = serde_json::Map::new();
-    m.insert("effect".into(), json!(if r.chance(bad) { "allow" } else if r.chance(60) { "permit" } else { "forbid" }));
+    m.insert("effect".into(), if r.chance(3) { json!({"permit": null}) } else { json!(if r.chance(bad) { "allow" } else if r.chance(60) { "permit" } else { "forbid" }) });
     m.insert("principal".into(), gen_scope_json(r, "principal", true, bad));
     m.insert("action".into(), gen_action_json(r, bad));
-    m.insert("resource".into(), gen_scope_json(r, if r.chance(bad) { "principal" } else { "resource" }, true, bad));
+    let rslot = if r.chance(bad) { "principal" } else { "resource" };
+    m.insert("resource".into(), gen_scope_json(r, rslot, true, bad));
     let nc = r.below(4);
     let conds: Vec<J> = (0..nc).map(|_| {
         let d = 1 + r.below(3) as u32;
@@ -827,7 +837,7 @@ fn check_json_policy(worlds: &[World], j: &J, idx: u64, out: &mut Out) {
                 Ok(p2) => { out.count("c_hand_pst_roundtrips"); if let Some(d) = diff_policy(p.as_ref(), p2.as_ref()) { out.propfail("(c) JSON policy -> PST -> Policy differs", &case, &d); } }
                 Err(e) => out.propfail("(c) from_pst rejects the PST of an accepted JSON policy", &case, &e.to_string()),
             },
-            Err(e) => { out.count("c_hand_to_pst_refused"); out.count(&format!("c_hand_to_pst_refused: {}", e.to_string().chars().take(60).collect::<String>())); }
+            Err(e) => { out.count("c_hand_to_pst_refused"); out.propfail("(c) to_pst failed (hand-built JSON policy)", &case, &e.to_string()); }
         }
         // protobuf of a set holding it
         let mut ps = cedar_policy::PolicySet::new();
@@ -873,7 +883,29 @@ fn fixed_exprs() -> Vec<&'static str> {
     ]
 }
 
+/// `--replay FILE`: each line is a policy text (one line) or a JSON policy; all checks are run on it
+fn replay(path: &str, seed: u64, out: &mut Out) {
+    let mut r = Rng::new(seed);
+    let worlds: Vec<World> = (0..3).map(|_| gen::gen_world(&mut r)).collect();
+    let text = std::fs::read_to_string(path).expect("replay file");
+    for (i, line) in text.lines().enumerate() {
+        let line = line.trim();
+        if line.is_empty() { continue; }
+        if line.starts_with('{') {
+            match serde_json::from_str::<J>(line) { Ok(j) => check_json_policy(&worlds, &j, i as u64, out), Err(e) => eprintln!("line {i}: bad json {e}") }
+        } else {
+            let link = if line.contains("?principal") || line.contains("?resource") { Some((Some(gen::mk_uid("User", "a")), Some(gen::mk_uid("NS::Doc", "a")))) } else { None };
+            let link = link.map(|(p, q)| (if line.contains("?principal") { p } else { None }, if line.contains("?resource") { q } else { None }));
+            let s = Spec { id: format!("r{i}"), text: line.to_string(), annotations: vec![], link };
+            match check_one(&mut r, &worlds, &s, out) { Some(b) => check_set(&worlds, &[b], out), None => eprintln!("line {i}: not checked (unparseable?)") }
+        }
+    }
+    for l in &out.propfail { eprintln!("PROPFAIL {l}"); }
+    eprintln!("stats {:?}", out.stats);
+}
+
 pub fn run(args: &Args, out: &mut Out) {
+    if let Some(f) = &args.replay { replay(f, args.seed, out); return; }
     let mut rng = Rng::new(args.seed);
     let mut g = ExprGen::new(5);
     // fixed: one expression per operator key (model lines only)
